@@ -95,7 +95,9 @@ class GV:
         if s._z is None:
             e = Z(s.alts[-1][1], s.w)
             for g, v in reversed(s.alts[:-1]):
-                e = fIf(g, Z(v, s.w), e)
+                if g is True: e = Z(v, s.w)
+                elif g is False: continue
+                else: e = fIf(g, Z(v, s.w), e)
             s._z = e
         return s._z
     def __repr__(s): return 'GV%d{%s}' % (s.w, ','.join(('%#x' % v) if isinstance(v, int) else 'sym' for _, v in s.alts))
